@@ -22,3 +22,13 @@ Definition c_texecute := texecute valid_addr api_valid.
 Definition c_tquery := tquery.
 Definition c_render := render.
 Definition c_migrate := migrate valid_addr.
+
+(* A pending batch in the layout of releases that had no request counter yet (`unstake_requests_count: None`): not a
+   transition of the contract but a store an upgraded deployment can be in; used by the correspondence only. *)
+Definition c_legacy_uncounted (s : store) : store :=
+  match nfind (pending_id s) (batches s) with
+  | Some b => set_batches s (ninsert (pending_id s)
+                {| b_id := b_id b; b_total := b_total b; b_expected := b_expected b; b_received := b_received b;
+                   b_count := None; b_time := b_time b; b_status := b_status b |} (batches s))
+  | None => s
+  end.
